@@ -4,7 +4,7 @@ SPEC = {
     "gen": [],
     "streams": [
         {"name": "nodedb", "cmd": "nodedb",
-         "args": {"quick": ["-cases", "40"], "thorough": ["-cases", "1500"]},
+         "args": {"quick": ["-cases", "40", "-pipeline-any"], "thorough": ["-cases", "1500", "-pipeline-any"]},
          "search_args": ["-cases", "400"]},
     ],
     "trusted_base": [
